@@ -122,6 +122,23 @@ class Cmp:
             self.fail(path, a, b, 'type')
 
 
+def shuffle_members(rng, o, inside=False):
+    """The same JSON document with the members of the objects held in keyed lists (lumped losses, Raman pumps, design
+    bands) written in another order: the order of the members of a JSON object carries no meaning.  (Only there: the
+    validation library insists on the key coming first and the converters re-order these lists for it; for the element
+    and connection lists themselves every shipped file writes the key first.)"""
+    if isinstance(o, dict):
+        ks = list(o)
+        if inside:
+            rng.shuffle(ks)
+        return {k: shuffle_members(rng, o[k], k in ('lumped_losses', 'raman_pumps', 'design_bands',
+                                                     'per_degree_design_bands') or (inside and isinstance(o[k], (dict, list))))
+                for k in ks}
+    if isinstance(o, list):
+        return [shuffle_members(rng, x, inside) for x in o]
+    return o
+
+
 def roundtrip(ctx, doc, kind, accepted_by_loader=False):
     """Returns (yang, legacy2) or None when the document is not valid YANG.  A document that the real legacy loader
     accepted (accepted_by_loader) and that cannot be brought to the YANG form is a violation, not a rejected input."""
@@ -434,6 +451,9 @@ def run_topology(ctx):
     rng = ctx.rng
     MIXED[0] = 0
     tj, ename, flavour = gen_topology_doc(rng)
+    if rng.random() < 0.3:
+        tj = shuffle_members(rng, tj)
+        ctx.count('documents_with_shuffled_members')
     for _ in range(MIXED[0]):
         ctx.count('roadms_mixing_per_degree_target_types')
     ctx.dump.update({'document': tj})
